@@ -393,6 +393,10 @@ def torch_applicable(P):
             return False
         if op.startswith("avg") and (g["dH"], g["dW"]) != (1, 1):
             return False
+        # a dilation wider than the input lets a window jump over the whole input (all cells padding, result -inf); PyTorch's
+        # max-pool backward then writes through the index -1 (heap corruption observed with torch 2.14): never ask torch there
+        if op.startswith("max") and ((g["kH"] > 1 and g["dH"] > g["H"]) or (g["kW"] > 1 and g["dW"] > g["W"])):
+            return False
     if op == "unfold" and P.get("pv", 0) != 0:
         return False
     return True
